@@ -181,10 +181,10 @@ theorem sliceByLine_specRun {cfg : Config} (m : MatcherI) (σ : Script) (h : NoC
       simp only [lineRun] at hr
       rw [← hr]
       simp only [if_true]
-      have hf := finish_events σ c0 (byteCount c0) c0.binaryByteOffset
+      have hf := finish_events σ c0 (byteCount cfg c0) c0.binaryByteOffset
       simp only [Run.events]
       rw [hf.1, hf.2, c_ev]
-      simp [byteCount, ← hc0, Core.new]
+      simp [byteCount, ite_self, ← hc0, Core.new]
     · simp only [hne, if_false]
       cases hout : r.out with
       | err =>
@@ -193,22 +193,22 @@ theorem sliceByLine_specRun {cfg : Config} (m : MatcherI) (σ : Script) (h : NoC
         simp
       | stop =>
         dsimp only
-        have hf := finish_events σ st' (byteCount st') st'.binaryByteOffset
+        have hf := finish_events σ st' (byteCount cfg st') st'.binaryByteOffset
         simp only [Run.events]
         rw [hf.1, hf.2, hA.ev, c_ev]
         have he := hA.endp (by rw [hout]; decide)
         rw [habs] at he
-        simp [byteCount, hA.bin, ← he, Nat.add_comm]
+        simp [byteCount, ite_self, hA.bin, ← he, Nat.add_comm]
       | done =>
         dsimp only
-        have hf := finish_events σ st' (byteCount st') st'.binaryByteOffset
+        have hf := finish_events σ st' (byteCount cfg st') st'.binaryByteOffset
         simp only [Run.events]
         rw [hf.1, hf.2, hA.ev, c_ev]
         have hls : ls ≠ [] := by intro hc; rw [hc] at hfl; exact hne hfl.symm
         have hpos := hA.pos hout hls
         have he := hA.endd hout
         rw [habs] at he
-        simp [byteCount, hA.bin, hpos, he, Nat.add_comm]
+        simp [byteCount, ite_self, hA.bin, hpos, he, Nat.add_comm]
   · -- `begin` answered "stop"
     rw [hlen0] at hσ
     rw [heq, hσ]
@@ -216,11 +216,11 @@ theorem sliceByLine_specRun {cfg : Config} (m : MatcherI) (σ : Script) (h : NoC
     rw [if_neg (by decide)]
     dsimp only
     have hf := finish_events σ ({ Core.new cfg true with events := (Core.new cfg true).events ++ [Event.begin] } : Core)
-      (byteCount { Core.new cfg true with events := (Core.new cfg true).events ++ [Event.begin] })
+      (byteCount cfg { Core.new cfg true with events := (Core.new cfg true).events ++ [Event.begin] })
       ({ Core.new cfg true with events := (Core.new cfg true).events ++ [Event.begin] } : Core).binaryByteOffset
     simp only [Run.events]
     rw [hf.1, hf.2]
-    simp [byteCount, Core.new]
+    simp [byteCount, ite_self, Core.new]
   · rw [hlen0] at hσ
     rw [heq, hσ]
     simp [Run.events, Core.new]
